@@ -94,6 +94,17 @@ def execute(config, case):
 
 
 def replay(harness, config, case):
+    if harness == "c13_equiv":
+        from checks import c07_roundtrip as c07
+        from mc import trees
+        t0, _ = c07.parse_obj(case, "dom")
+        a, _, _ = c07.render(t0, "dom", {"omit_optional_tags": True})
+        b, _, _ = c07.render(t0, "dom", {"omit_optional_tags": False})
+        ca, cb = c07.canon(c07.parse_obj(a, "dom")[0], "dom"), c07.canon(c07.parse_obj(b, "dom")[0], "dom")
+        if ca == cb:
+            return None
+        return engine.Violation("c13_equiv", config, case, cb, ca, "omitting optional tags changed how the document parses",
+                                "parse-equivalence:" + c07.diff_path(cb, ca))
     return execute(config, case)
 
 
@@ -140,6 +151,13 @@ def run(run):
                 classes[cls] = (stream, what, out)
     for cls, (stream, what, out) in sorted(classes.items()):
         run.violation(engine.Violation(H, {}, stream, "only omissible tags removed", out, what, cls))
+    # (b) parse-equivalence on generated conforming documents (shared generator with C07)
+    from checks import c07_roundtrip as c07
+    for r in engine.pmap(c07._equiv_shard, c07.equivalence_shards(run.tier), chunksize=1):
+        run.add("conforming_documents_for_parse_equivalence", r["docs"])
+        for cls, (text, filtered, cb, ca) in r["viol"].items():
+            run.violation(engine.Violation("c13_equiv", {}, text, cb, {"filtered_output": filtered, "tree": ca},
+                                           "omitting optional tags changed how the document parses", cls))
     for i in (5, 40, 77, 100, 120):
         run.sample([tok_json(ALPHA[i % len(ALPHA)]), tok_json(ALPHA[(i * 7) % len(ALPHA)]),
                     tok_json(ALPHA[(i * 13) % len(ALPHA)])])
